@@ -4,7 +4,8 @@ from ..harnesses import HEnum, HStory, timing_states
 from ..monitors import Timing
 
 RULE = ('(1) H-ENUM: every duration vector for n <= N stories over the timing kinds {StoryDuration, TextTime, MediaTime '
-        '(non-integer), TextTime+MediaTime, StoryDuration+TextTime (precedence), metadata without timing, no metadata} x '
+        '(non-integer), TextTime+MediaTime, StoryDuration+TextTime (precedence), a duration of 0 (as StoryDuration and as '
+        'TextTime+MediaTime), metadata without timing, no metadata} x '
         'explicit StoryStarted/StoryEnded on every subset x roEdStart {present, empty, absent}; story durations are distinct '
         'powers of two so every prefix sum identifies its summands; (2) H-STORY closure (reorder / insert / replace / delete '
         '/ swap / re-send) over stories with per-ID timing kinds and explicit times. Monitor (every state): independent '
@@ -21,7 +22,7 @@ def vacuity(by_kind, by_outcome, extra, by_class):
     return probs
 
 
-TIMING = {'A': 'dur', 'AB': 'both', 'C': 'media', 'D': 'dur+text', 'E': 'text', 'F': 'dur'}
+TIMING = {'A': 'dur', 'AB': 'zero', 'C': 'media', 'D': 'dur+text', 'E': 'both', 'F': 'zero-text'}
 EXPL = {'AB': 's', 'C': 'e', 'D': 'se'}
 
 
@@ -40,7 +41,7 @@ def run(tier):
         parts = [
             {'label': 'duration-vectors-n<=3-all', 'harness': HEnum(timing_states(max_n=3), 'timing'), 'monitors': mon},
             {'label': 'duration-vectors-n<=4', 'harness': HEnum(timing_states(max_n=4, explicit=('', 'se'), edstarts=(True, False),
-                                                                              kinds=('dur', 'text', 'both', 'dur+text', 'none')), 'timing4'), 'monitors': mon},
+                                                                              kinds=('dur', 'text', 'both', 'zero', 'none')), 'timing4'), 'monitors': mon},
             {'label': 'reordering-closure', 'harness': HStory(pool=6, cap=5, max_list=2, timing=TIMING, explicit=EXPL, layouts=('before', 'between'),
                                                              no_expand=()), 'monitors': mon},
             {'label': 'reordering-closure-no-roEdStart', 'harness': HStory(pool=4, cap=4, max_list=2, timing=TIMING, explicit=EXPL, layouts=('after',),
